@@ -156,6 +156,41 @@ def make(targets, timeout=3000):
     return run(["make", "-j16"] + targets, cwd=COQ, timeout=timeout)
 
 
+def coqchk(targets, timeout=2400):
+    """Independent re-check (coqchk) of the compiled closure of the proof files.
+    Returns (ok, axioms, text).  coqchk lists the axioms of every library it
+    loads, used by the theorems or not; they are recorded, not judged (the
+    per-theorem Print Assumptions allow-list is what judges)."""
+    mods = []
+    for t in targets:
+        d, f = os.path.split(t[:-3] if t.endswith(".vo") else t)
+        lp = {"lib": "Verif", "gen": "VerifGen"}.get(d, d)
+        mods.append(lp + "." + f)
+    rc, o, dt = run(["coqchk", "-silent", "-o"] + coq_flags() + mods, cwd=COQ, timeout=timeout)
+    if rc == 124 or "TIMEOUT" in o[-200:]:
+        return None, [], "coqchk timed out after %ds" % timeout
+    axioms, bad = [], []
+    sect = None
+    for line in o.splitlines():
+        m = re.match(r"\* (Axioms|Theory|Constants/Inductives relying on type-in-type|Constants/Inductives relying on unsafe \(co\)fixpoints|Inductives whose positivity is assumed):\s*(.*)", line)
+        if m:
+            sect = m.group(1)
+            rest = m.group(2).strip()
+            if sect == "Axioms" and rest and rest != "<none>":
+                axioms.append(rest)
+            elif sect not in ("Axioms", "Theory") and rest != "<none>":
+                bad.append(sect + ": " + rest)
+            continue
+        t = line.strip()
+        if sect and t and not t.startswith("*") and not t.startswith("="):
+            if sect == "Axioms":
+                axioms.append(t)
+            elif sect != "Theory":
+                bad.append(sect + ": " + t)
+    ok = rc == 0 and not bad
+    return ok, axioms, (o.strip()[-1200:] if not ok else "%d modules re-checked in %.0fs" % (len(mods), dt))
+
+
 def strip_comments(src):
     out, depth, i = [], 0, 0
     while i < len(src):
@@ -286,6 +321,10 @@ def main(argv):
     notes = []
     rundir = os.path.join(BUILD, "run", prop)
     os.makedirs(rundir, exist_ok=True)
+    # two runs of one property share rundir, replay and evidence files: serialise
+    # them (held until the process exits)
+    proplock = Lock("run-" + prop)
+    proplock.__enter__()
     os.makedirs(os.path.join(BUILD, "replay"), exist_ok=True)
     for f in glob.glob(os.path.join(BUILD, "replay", prop + "-*.json")):
         if not replay or os.path.abspath(replay) != f:
@@ -303,6 +342,16 @@ def main(argv):
         make_ok = rc == 0
         if not make_ok:
             problems.append("coq build failed: " + o.strip()[-1500:])
+        chk = None
+        if make_ok and tier == "thorough" and not os.environ.get("VERIF_NO_COQCHK"):
+            chk = coqchk(cfg["coq_targets"])
+            if chk[0] is False:
+                problems.append("coqchk rejects the compiled proofs: " + chk[2])
+            elif chk[0] is None:
+                notes.append(chk[2] + " (not a failure: the kernel accepted the build; re-run with more time)")
+            else:
+                notes.append("coqchk -o: %s; axioms in the loaded libraries (used by the theorems or not): %s"
+                             % (chk[2], ", ".join(chk[1]) or "<none>"))
     hrc, ho, hdt = build_harness(cfg["harness"]) if cfg.get("harness") else (0, "", 0)
     thms, pas = props_obligations(props_v)
     assumptions = {}
@@ -422,7 +471,7 @@ def main(argv):
     cov = {
         "obligations": obligations,
         "discharged": discharged if not (problems and not make_ok) else 0,
-        "checker_cmd": "make -C coq -j16 %s && coqc %s (Print Assumptions scan; forbidden-construct scan)" % (" ".join(cfg["coq_targets"]), cfg["props_file"]),
+        "checker_cmd": "make -C coq -j16 %s && coqc %s (Print Assumptions scan; forbidden-construct scan)%s" % (" ".join(cfg["coq_targets"]), cfg["props_file"], "; coqchk -silent -o on the same closure" if tier == "thorough" else ""),
         "trusted_base": cfg.get("trusted_base", []),
         "theorems": pas,
         "assumptions_reported": {t: (a or "Closed under the global context") for t, a in assumptions.items()},
